@@ -15,6 +15,8 @@ import numpy as np
 from mc import alphabet as A
 from mc.core import Partial, V
 from mc.outcome import call
+from fractions import Fraction
+
 from mc.refmodel import RefND, eq_exact
 
 ID = "C02"
@@ -249,9 +251,58 @@ def evaluate(case):
 
 
 def replay(case):
+    if case.get("kind") == "missed_weight":
+        return evaluate_missed(case)
     if case.get("kind") == "forms":
         return evaluate_forms(case)
     return evaluate(case)[0]
+
+
+MISSED_WEIGHTS = {"decimal": [0.1, 0.1, 0.1, 0.3, 0.7], "ratio": [1.0e16, 1.0, 3.0, 1.0e16, 0.5], "float32_ratio": [2.0 ** 24, 1.0, 2.0 ** 24, 1.0, 0.5]}
+MISSED_POINTS = [0.5, 1.5, 2.5, 9.0, -4.0]  # per axis: three bins, above, below
+
+
+def evaluate_missed(case):
+    """Weights that are not powers of two / differ by 16 orders of magnitude: the missed weight is the weight of the rows outside
+    the bins - exactly 0 when there is none, and never cancelled by a large weight inside."""
+    from physt import h, h2
+    from physt.histogram_nd import Histogram2D, HistogramND
+
+    d, wmode, form = case["d"], case["wmode"], case["form"]
+    rows = [[MISSED_POINTS[i] for i in r] for r in case["rows"]]
+    n = len(rows)
+    wl = MISSED_WEIGHTS[wmode][:n]
+    w = np.array(wl, dtype=np.float32 if wmode.startswith("float32") else np.float64)
+    arr = np.array(rows, dtype=float).reshape(n, d)
+    edges = [np.array([0.0, 1.0, 2.0, 3.0]) for _ in range(d)]
+
+    def build():
+        if form == "h_rows":
+            return h(arr, edges, weights=w)
+        if form == "h2_cols":
+            return h2(arr[:, 0].copy(), arr[:, 1].copy(), edges, weights=w)
+        hh = (Histogram2D if d == 2 else HistogramND)(edges, dtype=np.float64)
+        hh.fill_n(arr, w)
+        return hh
+
+    res = call(build)
+    sig = f"missed_weight|{wmode}|{form}"
+    if not res.ok:
+        return [V("must_succeed", f"{sig}|{exc_sig(res.exc)}", case, "a histogram", res.describe())]
+    hh = res.value
+    outside = [float(x) for r, x in zip(rows, w.tolist()) if any(not (0.0 <= v <= 3.0) for v in r)]
+    want = float(sum(Fraction(x) for x in outside)) if outside else 0.0
+    got = float(hh.missed)
+    out = []
+    if not outside:
+        if got != 0.0:
+            out.append(V("missed", f"{sig}|residue_without_outside_rows", case, 0.0, got))
+    elif not (abs(got - want) <= 1e-9 * want):
+        out.append(V("missed", f"{sig}|outside_weight_cancelled", case, want, got))
+    inside = float(sum(Fraction(float(x)) for r, x in zip(rows, w.tolist()) if all(0.0 <= v <= 3.0 for v in r)))
+    if not (abs(float(hh.total) - inside) <= 1e-9 * max(inside, 1e-300)):
+        out.append(V("cell_content", f"{sig}|total", case, inside, float(hh.total)))
+    return out
 
 
 def evaluate_forms(case):
@@ -306,6 +357,7 @@ def units(tier, seed):
             for wmode in (None, "int", "float"):
                 us.append({"kind": "chunks", "axes": cfg, "d": 4, "wmode": wmode, "forms": ["h_rows"]})
                 us.append({"kind": "tuples", "axes": cfg, "d": 4, "wmode": wmode, "L": 1})
+    us.append({"kind": "missed_weight"})
     for i, m in enumerate(METHOD_CASES):
         us.append({"kind": "method", "index": i})
     us.append({"kind": "forms"})
@@ -315,6 +367,23 @@ def units(tier, seed):
 def run_unit(unit, ctx):
     p = Partial()
     kind = unit["kind"]
+    if kind == "missed_weight":
+        case = None
+        alph = {2: [(0, 0), (1, 1), (2, 0), (3, 1), (1, 4), (0, 2)], 3: [(0, 0, 0), (1, 1, 1), (2, 2, 0), (0, 1, 3), (4, 1, 1), (3, 3, 3)]}
+        for d in (2, 3):
+            for n in (1, 2, 3, 4):
+                for rows in itertools.product(alph[d], repeat=n):
+                    if n == 4 and (len(set(rows)) < 4 or list(rows) != sorted(rows)):
+                        continue
+                    for wmode in MISSED_WEIGHTS:
+                        for form in (("h_rows", "h2_cols", "class_fill_n") if d == 2 else ("h_rows", "class_fill_n")):
+                            case = {"kind": "missed_weight", "d": d, "rows": [list(r) for r in rows], "wmode": wmode, "form": form}
+                            vs = evaluate_missed(case)
+                            p.ev(True)
+                            p.outcome("missed_weight:" + wmode)
+                            p.extend(vs)
+        p.sample(case)
+        return p
     if kind in ("chunks", "tuples"):
         axes = unit["axes"]
         d = unit["d"]
